@@ -205,6 +205,19 @@ Definition C04_single_fault_statement : Prop :=
 Theorem C04_single_fault : C04_single_fault_statement.
 Proof. exact single_fault_statement_holds. Qed.
 
+(** The mechanism of recovery on the sending side: once the timeout has elapsed since the last
+    transmission, a receive that brings no progress (a failed attempt inside the budget, an
+    acknowledgement outside the window) is followed by the whole window again, and the timer
+    restarts.  (The monitor's timer rule is this statement read off the implementation's trace.) *)
+Theorem C04_timer_drives_recovery : forall cfg F st e st' out, wf_params (s_blk cfg) (s_ws cfg) -> s_fails cfg = [] ->
+  SInv cfg F st -> s_phase st = SInWindow -> send_step cfg st e = (st', out) ->
+  s_tmo cfg <= s_since st + ev_delay e ->
+  ((is_failed_attempt (receive max_request_packet_size e) /\ s_retry st + 1 <> max_retries) \/
+   (exists r, receive max_request_packet_size e = RPacket (Ack r) /\ ~ (wsub16 r (s_bn st) < lenN (w_elems (s_w st))))) ->
+  out = window_tx (N.to_nat (s_rep cfg)) (s_abs st) (w_elems (s_w st)) /\ w_elems (s_w st) <> [] /\
+  s_since st' = 0 /\ s_phase st' = SInWindow /\ s_w st' = s_w st /\ s_abs st' = s_abs st.
+Proof. exact timer_drives_recovery. Qed.
+
 (** The general clause.  Every fault schedule ends, in completion or at the retry limit. *)
 Definition C04_every_schedule_statement : Prop :=
   forall (blk ws : N) (F : bytes) (f1 f2 : list (N * fault)), 0 < blk -> 1 <= ws <= 65535 -> nblk blk F <= 65535 ->
@@ -216,6 +229,17 @@ Definition C04_every_schedule_statement : Prop :=
     \/ s_phase (p_s p) = SDone OutTimeout.
 Theorem C04_every_schedule_ends : C04_every_schedule_statement.
 Proof. exact any_schedule_statement_holds. Qed.
+
+(** ... hence: a schedule under which the sender never reaches the retry limit completes. *)
+Theorem C04_below_the_limit_completes :
+  forall (blk ws : N) (F : bytes) (f1 f2 : list (N * fault)), 0 < blk -> 1 <= ws <= 65535 -> nblk blk F <= 65535 ->
+  let sc := mk_scfg blk ws 1000000000 1 false [] in
+  let rc := mk_rcfg blk ws 1000000000 1 true [] in
+  (forall fuel, s_phase (p_s (pair_run sc rc f1 f2 fuel (pair_init sc rc f1 F))) <> SDone OutTimeout) ->
+  exists fuel,
+    let p := pair_run sc rc f1 f2 fuel (pair_init sc rc f1 F) in
+    r_phase (p_r p) = RDone OutOk /\ written_bytes (w_file (r_w (p_r p))) = F /\ s_phase (p_s p) = SDone OutOk.
+Proof. exact below_the_limit_statement_holds. Qed.
 
 Theorem C04_every_schedule_ends_gen : forall sc rc F,
   wf_params (s_blk sc) (s_ws sc) -> r_blk rc = s_blk sc -> r_ws rc = s_ws sc -> s_check sc = false ->
@@ -289,7 +313,9 @@ Print Assumptions C04_one_reordered_data_completes.
 Print Assumptions C04_one_reordered_ack_completes.
 Print Assumptions C04_single_fault.
 Print Assumptions C04_every_schedule_ends.
+Print Assumptions C04_timer_drives_recovery.
 Print Assumptions C04_every_schedule_ends_gen.
+Print Assumptions C04_below_the_limit_completes.
 Print Assumptions C04_gives_up_only_at_the_limit.
 Print Assumptions C04_quiet_after_faults_completes.
 Print Assumptions C04_general_invariant.
